@@ -20,10 +20,10 @@ func init() { register(c08{}) }
 func (c08) Meta() core.Meta {
 	return core.Meta{
 		ID: "C08", Level: "exploration",
-		Rule: "case i = f(seed,i): JSON/XML-shaped Map over a 5-key alphabet (keys recur at several depths, inside lists, beside themselves; a list directly inside a list with low probability) + a key (present/absent/'*') + 0..3 sub-key conditions drawn from real sibling keys and values (string/num/bool typed, '*' wildcard, '!' negation; default ':' and alternative '|' separator). Monitors: ValuesForKey == reference search (multiset); PathsForKey == reference path set, no duplicates; PathForKeyShortest minimal; union over paths of ValuesForPath == ValuesForKey (conservation); filter law result(S) == {v in result(∅): map ∧ pred_S(v)} for ValuesForKey and ValuesForPath, with a three-valued predicate (negated condition on an absent key is unspecified). Non-trivial: unfiltered result non-empty; distinct by hash(map,key,conditions).",
+		Rule:        "case i = f(seed,i): JSON/XML-shaped Map over a 5-key alphabet (keys recur at several depths, inside lists, beside themselves; a list directly inside a list with low probability) + a key (present/absent/'*') + 0..3 sub-key conditions drawn from real sibling keys and values (string/num/bool typed, '*' wildcard, '!' negation; default ':' and alternative '|' separator). Monitors: ValuesForKey == reference search (multiset); PathsForKey == reference path set, no duplicates; PathForKeyShortest minimal; union over paths of ValuesForPath == ValuesForKey (conservation); filter law result(S) == {v in result(∅): map ∧ pred_S(v)} for ValuesForKey and ValuesForPath, with a three-valued predicate (negated condition on an absent key is unspecified). Non-trivial: unfiltered result non-empty; distinct by hash(map,key,conditions).",
 		Assumptions: []string{"reference search / predicate written from the documentation", "a negated typed condition on an absent key is treated as unspecified (docs silent)"},
 		Anchors:     []string{"Map.ValuesForKey", "hasKey", "Map.ValueForKey", "Map.PathsForKey", "Map.PathForKeyShortest", "hasKeyPath", "hasSubKeys", "getSubKeyMap", "SetFieldSeparator"},
-		Floors:      map[string]int64{"key-at-2+-depths": 300, "filter:nonempty-unfiltered": 1000, "filter:some-pass-some-fail": 100, "cond:neg": 300, "cond:wild": 300, "cond:typed": 300, "altsep": 300, "paths>=2": 300},
+		Floors:      map[string]int64{"key-at-2+-depths": 300, "filter:nonempty-unfiltered": 1000, "filter:some-pass-some-fail": 100, "cond:neg": 300, "cond:wild": 300, "cond:typed": 300, "altsep": 300, "paths>=2": 300, "crossapi:checked": 10000},
 	}
 }
 
@@ -34,7 +34,7 @@ func (c08) Cases(tier string, race bool) int {
 	if tier == "thorough" {
 		return 1000000
 	}
-	return 30000
+	return 40000
 }
 
 func c08scalar(r *rand.Rand) interface{} {
@@ -287,7 +287,7 @@ func checkFilterLaw(unfiltered, got []interface{}, conds []cond) (ok bool, nPass
 
 func (c08) Case(c *core.Ctx) {
 	r := c.R
-	g := jv.GenOpt{Keys: c07keys, MaxFan: 3, WideProb: 25, ListInList: r.Intn(12) == 0, EmptyConts: true, Nulls: true, Scalars: c08scalar}
+	g := jv.GenOpt{Keys: c07keys, MaxFan: 3, WideProb: 25, ListInList: r.Intn(12) == 0, EmptyConts: true, Nulls: true, Scalars: c08scalar}.Fresh()
 	root := jv.M{"doc": g.Value(r, 1+r.Intn(5), false)}
 	if r.Intn(5) == 0 {
 		root = g.Map(r, 1+r.Intn(4))
@@ -369,8 +369,15 @@ func (c08) Case(c *core.Ctx) {
 		if (len(wp) == 0 && sh != "") || (len(wp) > 0 && (!wp[sh] || len(strings.Split(sh, ".")) != minLen)) {
 			c.Violate("c08-shortest", "PathForKeyShortest is not a path of minimal length", core.D{"map": jv.Show(root), "key": k, "observed": sh, "paths": fmt.Sprint(sortedBoolKeys(wp))})
 		}
-		// cross-API conservation
+		// cross-API conservation (on very wide Maps a sample of the paths would not decide the multiset law: skipped, counted)
 		var union []interface{}
+		if len(wp) > 60 {
+			c.Count("crossapi:skipped-more-than-60-paths")
+			wp = map[string]bool{}
+			union = got
+		} else {
+			c.Count("crossapi:checked")
+		}
 		for _, p := range sortedBoolKeys(wp) {
 			vs, perr := m.ValuesForPath(p)
 			if perr != nil {
